@@ -25,6 +25,7 @@ type Clause struct {
 type LoopSpec struct {
 	Invariants []Clause
 	Decreases  []Clause
+	Uses       []Clause // "loop N use axiom(args)": one instance of a (manual) axiom or lemma at the loop head
 }
 
 type Param struct {
@@ -97,6 +98,7 @@ type AxiomDef struct {
 	Props   []string
 	Hints   []string
 	Trigger [][]Expr
+	Manual  bool // never asserted with a quantifier: only the instances named by "use" clauses
 }
 
 type Contracts struct {
@@ -239,7 +241,7 @@ func (cs *Contracts) LoadFile(path, pkgPath string) error {
 		lines = append(lines, rawLine{strings.TrimSpace(t[3:]), i + 1})
 	}
 	// join continuation lines: a line continues the previous one if its first word is not a keyword
-	topKeywords := map[string]bool{"func": true, "pred": true, "spec": true, "ghost": true, "axiom": true, "lemma": true, "package": true, "fntype": true, "hint": true, "trigger": true}
+	topKeywords := map[string]bool{"func": true, "pred": true, "spec": true, "ghost": true, "axiom": true, "lemma": true, "package": true, "fntype": true, "hint": true, "trigger": true, "manual": true, "final": true}
 	var joined []rawLine
 	for _, l := range lines {
 		if l.text == "" {
@@ -374,6 +376,11 @@ func (cs *Contracts) LoadFile(path, pkgPath string) error {
 				return fail(fmt.Errorf("hint outside lemma"))
 			}
 			curAx.Hints = append(curAx.Hints, rest)
+		case "manual":
+			if curAx == nil {
+				return fail(fmt.Errorf("manual outside axiom/lemma"))
+			}
+			curAx.Manual = true
 		case "trigger":
 			if curAx == nil {
 				return fail(fmt.Errorf("trigger outside axiom/lemma"))
@@ -535,6 +542,12 @@ func (cs *Contracts) LoadFile(path, pkgPath string) error {
 						return fail(err)
 					}
 					ls.Invariants = append(ls.Invariants, c)
+				case "use":
+					c, err := mkClause(body)
+					if err != nil {
+						return fail(err)
+					}
+					ls.Uses = append(ls.Uses, c)
 				case "decreases":
 					for _, part := range splitTop(body) {
 						c, err := mkClause(part)
